@@ -1,7 +1,7 @@
 import json, os, shutil
 
 SPEC = {
-    "lean_modules": ["SemaModel.C13.Props", "SemaModel.C13.Tie", "SemaModel.C13.SitesProps"],
+    "lean_modules": ["SemaModel.C13.Props", "SemaModel.C13.Tie", "SemaModel.C13.SitesProps", "SemaModel.C13.Pins"],
     "lean_dirs": ["SemaModel/C13"],
     "harness": "c13",
     "harness_args": {"quick": ["-n", 600, "-sharekeys", 20000, "-syncscen", 24, "-shsyncscen", 8, "-reqscen", 80],
